@@ -201,7 +201,10 @@ pub fn test(c: &Case) -> TestResult {
             let mut cx = Context::from_waker(&waker);
             let cap = c.reads[reads_done % c.reads.len()] as usize;
             let mut buf = vec![0u8; cap];
-            match Pin::new(&mut req).poll_read(&mut cx, &mut buf) {
+            world.lock().unwrap().begin_poll();
+            let polled = Pin::new(&mut req).poll_read(&mut cx, &mut buf);
+            let waits_for_input = world.lock().unwrap().end_poll(polled.is_pending());
+            match polled {
                 Poll::Ready(Ok(n)) => {
                     // C09 in the multi-task setting: exactly the stream's bytes, in order, once
                     vensure!(n <= cap, "c09-read-count", "poll_read into {cap} bytes returned {n}");
@@ -219,7 +222,9 @@ pub fn test(c: &Case) -> TestResult {
                     reader_pendings += 1;
                     // waiting for input that will not come (no more client data) ends the reader
                     let w = world.lock().unwrap();
-                    if w.read_pos >= w.client.len() && w.reader_waker.is_some() {
+                    // (a request that is in the middle of flushing a reply - waiting for the
+                    // writer, holding the output lock - has to be polled on)
+                    if w.read_pos >= w.client.len() && w.reader_waker.is_some() && waits_for_input {
                         reader_finished = true;
                     }
                     if c.cancel_after.is_some_and(|k| reader_pendings > k as usize) {
@@ -360,7 +365,7 @@ pub fn test(c: &Case) -> TestResult {
             o += r.wire_len();
         }
         offs.push(o);
-        for &(log_len, read_pos) in &w.parks {
+        for &(log_len, read_pos) in &w.suspensions {
             let k = offs.partition_point(|&x| x <= read_pos).saturating_sub(1);
             let owed = model::mandatory(&e1.iter().filter(|e| e.cause < k).cloned().collect::<Vec<_>>());
             let (lr, _) = wire::decode_log(&w.log[..log_len]).map_err(|e| Fail::new("c10-log-malformed", e))?;
